@@ -189,7 +189,7 @@ SPECIFICATION Spec
 """
 SEEDS_ALL = "{<< >>}"
 SEEDS_FILE = 'LET s == JsonDeserialize("seeds.json") IN {<<s[i]>> : i \\in DOMAIN s}'
-JAVA = "-DTLA-Library=/verif/spec -Xmx4g -XX:ParallelGCThreads=2"
+JAVA = "-DTLA-Library=" + os.path.join(os.path.dirname(os.path.dirname(os.path.dirname(os.path.abspath(__file__)))), "spec") + " -Xmx4g -XX:ParallelGCThreads=2"
 JAVA_SHORT = JAVA + " -XX:TieredStopAtLevel=1"  # runs of a few seconds: skip the optimising JIT
 
 
